@@ -22,7 +22,8 @@ Definition SIG_NO_RETURN := 7%N.
 Definition SIG_GOROUTINES := 8%N.
 Definition SIG_LISTENERS := 9%N.
 Definition SIG_DESCRIPTORS := 10%N.
-(* vnc: serve() goes on parsing update requests it has already buffered after the frame pusher
+(* repaired in /repo (6a3f962), code kept so that a regression is reported under its name:
+   vnc: serve() goes on parsing update requests it has already buffered after the frame pusher
    has given up, and waits for ever on the full 128-slot queue (scenario 5: SetPixelFormat
    with true-colour = 0, then 140 update requests in one write) *)
 Definition SIG_VNC_QUEUE := 15%N.
